@@ -253,6 +253,26 @@ def check(case, ctx):
                 return ctx.fail("iteration-rel-diff", "call %d: iteration %d rel_diff=%r, expected %r" % (ci, j + 1, it.rel_diff, want))
             prev = cur
 
+        # ---- the stopping decision is consistent with the run's OWN reported chi2 values (exact arithmetic on the recorded numbers,
+        #      so this also decides runs whose chi2 has collapsed to rounding level, where the reference cannot)
+        rec = [float(ret.initial_chi2)] + [float(ret.iteration_results[j].chi2) for j in range(K)]
+        if all(math.isfinite(x) for x in rec):
+            def rule(j):
+                a_, b_ = rec[j - 1], rec[j]
+                rel_ = (a_ - b_) / (a_ + EPS)
+                if abs(rel_ - tol) <= 1e-9 * max(abs(tol), abs(rel_)) or abs(a_ - b_) <= 4 * EPS * max(abs(a_), abs(b_)):
+                    return None
+                return (b_ <= a_) and (rel_ < tol)
+
+            for j in range(1, K):
+                if rule(j) is True:
+                    return ctx.fail("stopping-rule", "call %d: by the reported chi2 values the documented rule holds at iteration %d (chi2 %r -> %r, tol=%g) but the run continued to %d" % (ci, j, rec[j - 1], rec[j], tol, K))
+            rK = rule(K)
+            if K < max_iter and rK is False:
+                return ctx.fail("stopping-rule", "call %d: stopped at iteration %d although by the reported chi2 values the documented rule does not hold (chi2 %r -> %r, tol=%g)" % (ci, K, rec[K - 1], rec[K], tol))
+            if K == max_iter and rK is not None and bool(ret.converged) != rK:
+                return ctx.fail("converged-flag", "call %d: converged=%r at max_iter=%d but the reported chi2 values %r -> %r with tol=%g give %r" % (ci, ret.converged, max_iter, rec[K - 1], rec[K], tol, rK))
+
         # ---- stopping rule (non-deterministic validation: ambiguous decisions accept both outcomes)
         for k in range(1, K):
             d = decide(chis, k, tol, chis[0], 1e-12 * maxinfo * (1 + S0) ** 2)
